@@ -1350,11 +1350,15 @@ func (s *Set) SymmetricDifference(other Iterator) (Value, error) {
 	diff := s.clone()
 	var x Value
 	for other.Next(&x) {
-		found, err := diff.Delete(x)
+		// Membership in s, not diff, decides, so that an
+		// element yielded twice by other is not toggled twice.
+		found, err := s.Has(x)
 		if err != nil {
 			return nil, err
 		}
-		if !found {
+		if found {
+			diff.Delete(x) // can't fail
+		} else {
 			diff.Insert(x) // can't fail
 		}
 	}
